@@ -181,16 +181,51 @@ def drop_opaque(spec: dict, edges) -> set[str]:
 
 
 # ---- running -------------------------------------------------------------------------------------
-def run_schedules(spec: dict, seeds: list[int], scratch: str, timeout: float = 30.0, plain_first: bool = True,
-                  confirm_hangs: bool = True) -> list[dict]:
-    """the spec under each PRNG schedule (plus, first, the default asyncio order)"""
+def _child(conn, spec, seed, wd, timeout, shuffle):
+    try:
+        conn.send(wfgen.run_spec(spec, seed=seed, workdir=wd, timeout=timeout, shuffle=shuffle))
+    except BaseException as e:  # noqa: BLE001
+        conn.send({"seed": seed, "outcome": {"kind": "harness-error", "detail": f"{type(e).__name__}: {e}"}})
+    finally:
+        conn.close()
+        os._exit(0)       # do not run the parent's atexit handlers / do not wait for stray threads
+
+
+def run_isolated(spec: dict, seed: int, wd: str, timeout: float, shuffle: bool) -> dict:
+    """`wfgen.run_spec` in a forked child with a hard wall-clock bound. The implementation's own hangs are detected
+    inside run_spec (watchdog on executor.run()); the hard bound only protects the check against a harness / cleanup
+    hang (stray database thread, event-loop shutdown): such a run is reported as a harness error, never as a pass."""
+    import multiprocessing as mp
+
+    ctx = mp.get_context("fork")
+    parent, child = ctx.Pipe(duplex=False)
+    proc = ctx.Process(target=_child, args=(child, spec, seed, wd, timeout, shuffle), daemon=True)
+    proc.start()
+    child.close()
+    hard = timeout * 2 + 90
+    try:
+        if parent.poll(hard):
+            res = parent.recv()
+        else:
+            res = {"seed": seed, "outcome": {"kind": "harness-error", "detail": f"run_spec did not come back within {hard:.0f}s (killed)"}}
+    except (EOFError, OSError) as e:
+        res = {"seed": seed, "outcome": {"kind": "harness-error", "detail": f"worker died: {e!r}"}}
+    finally:
+        if proc.is_alive():
+            proc.kill()
+        proc.join(5)
+        parent.close()
+    return res
+
+
+
+def _run_plan(spec: dict, plan, scratch: str, timeout: float, confirm_hangs: bool, stop_on_hang: bool) -> list[dict]:
     out = []
-    plan = ([(0, False)] if plain_first else []) + [(s, True) for s in seeds]
     for seed, shuffle in plan:
         wd = tempfile.mkdtemp(prefix="wf-", dir=scratch)
         try:
             res = wfgen.run_spec(spec, seed=seed, workdir=wd, timeout=timeout, shuffle=shuffle)
-            if res["outcome"]["kind"] == "hang" and confirm_hangs:
+            if res["outcome"]["kind"] == "hang" and confirm_hangs and not res.get("known_deadlock_state"):
                 # a genuine deadlock reproduces under the same schedule; a slow machine does not: run again, 3x the time
                 shutil.rmtree(wd, ignore_errors=True)
                 os.makedirs(wd, exist_ok=True)
@@ -198,10 +233,73 @@ def run_schedules(spec: dict, seeds: list[int], scratch: str, timeout: float = 3
                 if res2["outcome"]["kind"] != "hang":
                     res2["retried_after_timeout"] = True
                 res = res2
+        except BaseException as e:  # noqa: BLE001
+            res = {"seed": seed, "outcome": {"kind": "harness-error", "detail": f"{type(e).__name__}: {e}"}}
         finally:
             shutil.rmtree(wd, ignore_errors=True)
         res["shuffle"] = shuffle
         out.append(res)
+        if stop_on_hang and res["outcome"]["kind"] == "hang":
+            break
+    return out
+
+
+def _child_plan(conn, spec, plan, scratch, timeout, confirm_hangs, stop_on_hang, dump_path=None, dump_after=None):
+    try:
+        if dump_path:
+            import faulthandler
+            faulthandler.dump_traceback_later(dump_after, file=open(dump_path, "w"), exit=False)   # where a harness hang sits
+        conn.send(_run_plan(spec, plan, scratch, timeout, confirm_hangs, stop_on_hang))
+    except BaseException as e:  # noqa: BLE001
+        conn.send([{"seed": plan[0][0] if plan else 0, "shuffle": False,
+                    "outcome": {"kind": "harness-error", "detail": f"{type(e).__name__}: {e}"}}])
+    finally:
+        conn.close()
+        os._exit(0)
+
+
+def run_schedules(spec: dict, seeds: list[int], scratch: str, timeout: float = 30.0, plain_first: bool = True,
+                  confirm_hangs: bool = True, stop_on_hang: bool = False) -> list[dict]:
+    """the spec under each PRNG schedule (plus, first, the default asyncio order). All runs of one workflow happen in ONE
+    forked child with a hard wall-clock bound: the implementation's own hangs are detected inside `run_spec` (watchdog on
+    executor.run()); the hard bound only protects the check against a harness / event-loop-shutdown hang, which is
+    reported as a harness error for the runs that did not come back — never as a pass, never as a violation."""
+    import multiprocessing as mp
+
+    plan = ([(0, False)] if plain_first else []) + [(s, True) for s in seeds]
+    if not plan:
+        return []
+    ctx = mp.get_context("fork")
+    parent, child = ctx.Pipe(duplex=False)
+    hard = len(plan) * (timeout + 10) + timeout * 3 + 60
+    dump_path = os.path.join(scratch, f"stuck-{os.getpid()}-{id(plan)}.txt")
+    proc = ctx.Process(target=_child_plan, args=(child, spec, plan, scratch, timeout, confirm_hangs, stop_on_hang, dump_path, hard - 20),
+                       daemon=True)
+    proc.start()
+    child.close()
+    try:
+        if parent.poll(hard):
+            out = parent.recv()
+        else:
+            where = ""
+            try:
+                where = " | stacks: " + open(dump_path).read()[-1200:].replace("\n", " / ")
+            except OSError:
+                pass
+            out = [{"seed": sd, "shuffle": sh, "outcome": {"kind": "harness-error",
+                                                           "detail": f"the runs of this workflow did not come back within {hard:.0f}s (killed){where}"}}
+                   for sd, sh in plan]
+    except (EOFError, OSError) as e:
+        out = [{"seed": sd, "shuffle": sh, "outcome": {"kind": "harness-error", "detail": f"worker died: {e!r}"}} for sd, sh in plan]
+    finally:
+        if proc.is_alive():
+            proc.kill()
+        proc.join(5)
+        parent.close()
+        try:
+            os.unlink(dump_path)
+        except OSError:
+            pass
     return out
 
 
